@@ -20,9 +20,18 @@ type c07Case struct {
 	Kind  string `json:"kind"` // ident | type
 	S     string `json:"s"`    // hex of the input string
 	Valid bool   `json:"valid"`
-	SQL   string `json:"sql"`  // hex of the emitted text (validation on)
+	SQL   string `json:"sql"` // hex of the emitted text (validation on)
 	Err   string `json:"err,omitempty"`
 	Panic string `json:"panic,omitempty"`
+	// the same name / type under the other ways of rendering with validation on: which option methods were called, in
+	// which order, and from which statement position - validation must not depend on any of it
+	Variants []c07Variant `json:"variants,omitempty"`
+}
+
+type c07Variant struct {
+	Name string `json:"name"`
+	SQL  string `json:"sql"` // hex
+	Err  string `json:"err,omitempty"`
 }
 
 func boundaryRunes() []rune {
@@ -96,6 +105,36 @@ func runC07(out io.Writer, seed int64, n int, stride int) {
 			if err != nil {
 				c.Err = err.Error()
 			}
+			variant := func(name string, f func() (string, []any, error)) {
+				v := c07Variant{Name: name}
+				func() {
+					defer func() {
+						if recover() != nil {
+							v.Err = "panic"
+						}
+					}()
+					vs, _, verr := f()
+					v.SQL = hex.EncodeToString([]byte(vs))
+					if verr != nil {
+						v.Err = verr.Error()
+					}
+				}()
+				c.Variants = append(c.Variants, v)
+			}
+			named := map[string]any{"k": 1}
+			variant("pretty", func() (string, []any, error) { return qrb.Build(w).PrettyPrint().ToSQL() })
+			variant("named+pretty", func() (string, []any, error) { return qrb.Build(w).WithNamedArgs(named).PrettyPrint().ToSQL() })
+			variant("pretty+named", func() (string, []any, error) { return qrb.Build(w).PrettyPrint().WithNamedArgs(named).ToSQL() })
+			variant("named", func() (string, []any, error) { return qrb.Build(w).WithNamedArgs(named).ToSQL() })
+			// inside statements (the INSERT writer reads the pretty switch itself)
+			var ins builder.SQLWriter
+			if kind == "ident" {
+				ins = qrb.InsertInto(qrb.N(s)).ColumnNames("a").Values(qrb.Arg(1))
+			} else {
+				ins = qrb.InsertInto(qrb.N("t")).ColumnNames("a").Values(qrb.N("x").Cast(s))
+			}
+			variant("insert", func() (string, []any, error) { return qrb.Build(ins).ToSQL() })
+			variant("insert pretty", func() (string, []any, error) { return qrb.Build(ins).PrettyPrint().ToSQL() })
 		}()
 		enc.Encode(c)
 	}
